@@ -70,11 +70,19 @@ def replay(csv_text, tps, nticks):
     return delivered
 
 
-def judge(arrivals, tps, nticks, delivered, P):
-    """arrivals: list of text in file order (pipeline ids p0, p1, ...)."""
+ID_STYLES = {"p": "p{}", "hash": "#{}", "digits": "{}", "dash": "p-{}", "space": "job {}", "comma": "a,{}", "long": "pipeline_" + "x" * 60 + "_{}"}
+
+
+def judge(arrivals, tps, nticks, delivered, P, idstyle="p"):
+    """arrivals: list of text in file order (pipeline ids p0, p1, ... or the same numbers in another spelling)."""
     seen = {}
     order = []
+    back = {ID_STYLES[idstyle].format(i): f"p{i}" for i in range(len(arrivals))}
     for t, pid in delivered:
+        if pid not in back:
+            P("C13:unknown-pipeline", f"tick {t}: delivered a pipeline called {pid!r}, the file has no such pipeline")
+            return 0
+        pid = back[pid]
         if pid in seen:
             P("C13:delivered-twice", f"{pid} delivered in ticks {seen[pid]} and {t}")
             return 0
@@ -113,10 +121,13 @@ def judge(arrivals, tps, nticks, delivered, P):
     return known
 
 
-def csv_of(arrivals):
+def csv_of(arrivals, idstyle="p"):
     rows = [HEADER]
     for i, a in enumerate(arrivals):
-        rows.append(f"p{i},{a},BATCH_PIPELINE,op1,,1,const,,1\n")
+        pid = ID_STYLES[idstyle].format(i)
+        if "," in pid:
+            pid = '"' + pid + '"'
+        rows.append(f"{pid},{a},BATCH_PIPELINE,op1,,1,const,,1\n")
     return "".join(rows)
 
 
@@ -172,7 +183,16 @@ def trace_case(draw, tier):
     arrivals.sort(key=lambda a: F(a))
     last = math.ceil(F(arrivals[-1]) * tps)
     nticks = max(last + draw(st.sampled_from([2, 1, 0, -1, 5])), 0)
-    return {"tps": tps, "arrivals": arrivals, "nticks": nticks}
+    case = {"tps": tps, "arrivals": arrivals, "nticks": nticks}
+    if draw(st.integers(0, 3)) == 0:
+        case["idstyle"] = draw(st.sampled_from(sorted(ID_STYLES)))
+    if draw(st.integers(0, 24)) == 0:
+        # a fine-grained trace replayed at a coarse tick rate: far more than a thousand distinct arrival times in one tick
+        tps = draw(st.sampled_from([1, 2, 1, 4]))
+        base = draw(st.integers(0, 3))
+        m = draw(st.integers(1100, 2600))
+        case = {"tps": tps, "arrivals": [repr((base + j / 4096) / tps) for j in range(m)], "nticks": base + draw(st.sampled_from([3, 2, 1]))}
+    return case
 
 
 @st.composite
@@ -299,13 +319,18 @@ def run_case(spec):
         return out
     out.label("trace")
     tps, arrivals, nticks = spec["tps"], spec["arrivals"], spec["nticks"]
+    idstyle = spec.get("idstyle", "p")
+    if idstyle != "p":
+        out.label("ids_spelled_" + idstyle)
+    if len(arrivals) > 1000:
+        out.label("dense_trace_1000plus")
     try:
-        delivered = replay(csv_of(arrivals), tps, nticks)
+        delivered = replay(csv_of(arrivals, idstyle), tps, nticks)
     except Exception as e:
         P("C13:replay-raised", f"{type(e).__name__}: {e}")
         return out
     out.extra_evals = nticks
-    judge(arrivals, tps, nticks, delivered, P)
+    judge(arrivals, tps, nticks, delivered, P, idstyle)
     ticks = [math.ceil(F(a) * tps) for a in arrivals]
     two = len(ticks) != len(set(ticks))
     off = any((F(a) * tps).denominator != 1 for a in arrivals)
